@@ -8,6 +8,8 @@ import GuppyVerif.Util.Sexp
       `(load ua CIRC META OUTS)`   ua = 0|1, META = `none` | `(m name…)`, OUTS = `(o q|b|x …)`
       `(stub CIRC (body e|o …) none|SIG)`
       `(view CIRC)`
+      `(session EVENT…)`  EVENT = `other` | `(load objid ua CIRC META OUTS (body atom…))`
+        → `(results R…)`, R = load reply with `(body …)` appended on success
     replies:
       load: `(ok SIG (args SRC…) (outs OUT…))` | `(err sig TAG)` | `(err compile TAG)`
       stub: `(accepted SIG)` | `bodyNotEmpty` | `signatureError` | `(mismatch SIG)`
@@ -133,6 +135,34 @@ def handleLoad (ua : Sexp) (c : Sexp) (m : Sexp) (o : Sexp) : Option String := d
     some (toString (Sexp.list [a "ok", showSig sig, .list (a "args" :: w.callArgs.map showSrc),
       .list (a "outs" :: w.outputs.map showOut)]))
 
+def showLoaded : Loaded → Sexp
+  | .error (.sig e) => .list [a "err", a "sig", a (showSigErr e)]
+  | .error (.compile e) => .list [a "err", a "compile", a (showCompileErr e)]
+  | .ok (sig, w, body) =>
+    .list [a "ok", showSig sig, .list (a "args" :: w.callArgs.map showSrc),
+      .list (a "outs" :: w.outputs.map showOut), .list (a "body" :: body.map a)]
+
+def event? : Sexp → Option Event
+  | .atom "other" => some .other
+  | .list [.atom "load", obj, ua, c, m, o, .list (.atom "body" :: body)] => do
+    let obj ← obj.asNat?
+    let ua ← ua.asNat?
+    let c ← circ? c
+    let metadata : Option (List String) ← match m with
+      | .atom "none" => some none
+      | .list (.atom "m" :: names) => (names.mapM Sexp.asAtom?).map some
+      | _ => none
+    let outs ← match o with
+      | .list (.atom "o" :: ts) => ts.mapM portTy?
+      | _ => none
+    let body ← body.mapM Sexp.asAtom?
+    some (.load obj ⟨c, ua != 0, ⟨metadata, outs, body⟩⟩)
+  | _ => none
+
+def handleSession (evs : List Sexp) : Option String := do
+  let evs ← evs.mapM event?
+  some (toString (Sexp.list (a "results" :: (session evs).map showLoaded)))
+
 def handleStub (c : Sexp) (body : Sexp) (s : Sexp) : Option String := do
   let c ← circ? c
   let body ← match body with
@@ -154,6 +184,7 @@ def handle (line : String) : String :=
   match Sexp.parse line with
   | some (.list [.atom "load", ua, c, m, o]) => (handleLoad ua c m o).getD "bad-op"
   | some (.list [.atom "stub", c, body, s]) => (handleStub c body s).getD "bad-op"
+  | some (.list (.atom "session" :: evs)) => (handleSession evs).getD "bad-op"
   | some (.list [.atom "view", c]) =>
     match circ? c with
     | some c => toString c.viewOk
